@@ -166,7 +166,7 @@ PLANS["C13"] = Plan(
 
 _MOB = "moptipyapps.dynamic_control.model_objective"
 _SPT = "moptipyapps.dynamic_control.starting_points"
-PLANS["C13"].functions += [_MOB + ":_evaluate", _MOB + ":ModelObjective.begin", _MOB + ":ModelObjective.evaluate",
+PLANS["C13"].functions += ["moptipyapps.ttp.game_plan_space:GamePlanSpace.validate", _MOB + ":_evaluate", _MOB + ":ModelObjective.begin", _MOB + ":ModelObjective.evaluate",
                            _SPT + ":interesting_point_transform", _SPT + ":interesting_point_objective"]
 # compiled kernels that are knowingly not under contract (reported in the evidence, never counted)
 _C13_UNCOVERED = {
